@@ -148,9 +148,11 @@ func parseBristol(o *hxlib.Out, data []byte) (string, outcome) {
 func emit(o *hxlib.Out, op, res string) { o.Op("c14 "+op, res) }
 
 func clipHex(b []byte) string {
+	// the whole file (a replay must hold the concrete input); only files above
+	// 128 KiB are cut
 	s := hexOf(b)
-	if len(s) > 600 {
-		return s[:600] + "..."
+	if len(s) > 262144 {
+		return s[:262144] + "..."
 	}
 	return s
 }
@@ -258,6 +260,11 @@ func modeRT(args []string) int {
 			if r.Bool() {
 				reshapeIO(r, c, true)
 			}
+		case 4:
+			// one single string of 4095 … 100000 bytes
+			c = hxlib.GenCircuit(r, hxlib.GenOpts{MaxGates: 12, MaxIn: 4, Mix: mixes[r.Intn(len(mixes))]})
+			kind = longString(r, c, i/12)
+			o.Count(fmt.Sprintf("rt_long_string_len_%d", longLens[(i/12)%len(longLens)]))
 		case 3:
 			c = hxlib.GenCircuit(r, hxlib.GenOpts{MaxGates: maxGates, MaxIn: 6, Mix: mixes[r.Intn(len(mixes))], AllowReuse: true})
 			reshapeIO(r, c, false)
@@ -307,14 +314,15 @@ func modeRT(args []string) int {
 				o.Count("rt_native_fail_" + rdName)
 				o.Fail("c14-mpclc-roundtrip", map[string]any{"case": i, "reader": rdName, "reader_cfg": rd.String(),
 					"short_read_only": fmt.Sprint(dBig == ""), "what": d, "file_len": len(data), "kind": kind,
-					"circuit": clip(desc, 400)})
+					"circuit": clip(desc, 400), "file_hex": clipHex(data)})
 			} else {
 				o.Count("rt_native_outside_grammar_" + res.class)
 			}
 		}
 		if dBig != "" && inGrammar {
 			o.Fail("c14-mpclc-roundtrip", map[string]any{"case": i, "reader": "one-buffer", "reader_cfg": big.String(),
-				"short_read_only": "false", "what": dBig, "file_len": len(data), "kind": kind, "circuit": clip(desc, 400)})
+				"short_read_only": "false", "what": dBig, "file_len": len(data), "kind": kind, "circuit": clip(desc, 400),
+				"file_hex": clipHex(data)})
 		}
 
 		// Bristol
@@ -446,8 +454,9 @@ func modeFuzz(args []string) int {
 // ---------------------------------------------------------------- corpus
 
 // modeCorpus replays the files of corpus/C14 (-extra <file>): one case per
-// line, `mpclc <bufSize> <chunk> <salt> <hex>` or `bristol <hex>`; `#` starts
-// a comment.
+// line, `mpclc <bufSize> <chunk> <salt> <hex>`, `mpclc-valid …` (same, and the
+// file must parse and marshal back to itself) or `bristol <hex>`; `#` starts a
+// comment.
 func modeCorpus(args []string) int {
 	cf, o := hxlib.ParseCommon("c14-corpus", args, nil)
 	defer o.Close()
@@ -471,6 +480,29 @@ func modeCorpus(args []string) int {
 			}
 		}
 		switch {
+		case f[0] == "mpclc-valid" && len(f) == 5:
+			// a file Marshal wrote: must parse and marshal back to itself
+			var rd rdCfg
+			fmt.Sscan(f[1], &rd.bufSize)
+			fmt.Sscan(f[2], &rd.chunk)
+			fmt.Sscan(f[3], &rd.salt)
+			_, res := parseMPCLC(o, v, data, rd)
+			o.Count("corpus_mpclc_valid_" + res.class)
+			neverCrashes(o, "mpclc", i, "corpus", data, res)
+			what := ""
+			if res.class != "ok" {
+				what = "parse: " + res.class + " " + res.err
+			} else {
+				var b bytes.Buffer
+				if err := res.c.Marshal(&b); err != nil || !bytes.Equal(b.Bytes(), data) {
+					what = "re-marshalled bytes differ"
+				}
+			}
+			if what != "" && res.class != "skipped" {
+				o.Fail("c14-mpclc-roundtrip", map[string]any{"case": i, "reader": "corpus", "reader_cfg": rd.String(),
+					"short_read_only": "n/a", "what": what, "file_len": len(data), "kind": "corpus-valid-file",
+					"file_hex": clipHex(data), "corpus_line": i + 1})
+			}
 		case f[0] == "mpclc" && len(f) == 5:
 			var rd rdCfg
 			fmt.Sscan(f[1], &rd.bufSize)
